@@ -37,7 +37,9 @@ pub fn grid_points() -> Vec<(f64, f64)> {
 
 /// uniform sphere points shifted by -4..+4 turns
 pub fn sphere_points(rng: &mut Rng, n: usize) -> Vec<(f64, f64)> {
-  (0..n).map(|_| { let (lon, lat) = rng.sphere(); let turns = (rng.below(9) as f64 - 4.0) * TWO_PI; (lon + turns, lat) }).collect()
+  // mostly within +-4 turns; one point in 16 up to +-30 turns (|lon| < 190 rad: beyond 64 pi = 201 rad the range reduction of the crate
+  // saturates, which is outside "a few turns")
+  (0..n).map(|_| { let (lon, lat) = rng.sphere(); let k = if rng.below(16) == 0 { rng.below(61) as f64 - 30.0 } else { rng.below(9) as f64 - 4.0 }; (lon + k * TWO_PI, lat) }).collect()
 }
 
 /// points on cell borders (vertices and random edge points) of random cells at random depths, x {-1,0,1 ulp}^2
@@ -83,6 +85,25 @@ pub fn hostile_points(rng: &mut Rng, n: usize) -> Vec<(f64, f64)> {
       0 => v.push((lon, s * (PI / 2.0 - rng.log_uniform(1e-16, 1e-2)))),
       1 => v.push((lon, s * (tl + (rng.f() - 0.5) * rng.log_uniform(1e-16, 1e-3)))),
       _ => { let k = rng.below(9) as f64; v.push((k * PI / 4.0 + (rng.f() - 0.5) * rng.log_uniform(1e-16, 1e-3), s * rng.f() * PI / 2.0)); }
+    }
+  }
+  // joint class: a latitude a controlled distance (1e-13 .. 1e-6 rad, either side) from the transition latitude AND a longitude that puts
+  // the point on an edge of a cell of depth 24..29 (the two boundaries together: region dispatch x cell-border rounding), half of them
+  // within a few cells of a seam meridian k.pi/2 (the 8 points where three base cells meet)
+  for _ in 0..n / 4 {
+    let depth = 24 + rng.below(6) as u8; let ns = nside(depth) as f64;
+    let s = if rng.coin() { 1.0 } else { -1.0 };
+    let lat = s * (tl + (if rng.coin() { 1.0 } else { -1.0 }) * rng.log_uniform(1e-13, 1e-6));
+    let lon0 = if rng.coin() { (rng.below(5) as f64) * PI / 2.0 + (rng.f() - 0.5) * 8.0 / ns } else { rng.f() * TWO_PI };
+    for img in ref_proj_images(lon0.rem_euclid(TWO_PI), lat, 0.0).into_iter().take(1) {
+      let (x0, y0) = img;
+      let (sgn, c) = if rng.coin() { (1.0, x0 + y0) } else { (-1.0, x0 - y0) };
+      let m = (c * ns / 2.0).round() + (rng.below(3) as f64 - 1.0);
+      let x_edge = m * 2.0 / ns - sgn * y0;
+      if !(x_edge >= 0.0 && x_edge < 8.0) { continue; }
+      let p = ref_unproj(x_edge, y0);
+      let (ul, ub) = (rng.below(5) as i64 - 2, rng.below(3) as i64 - 1);
+      v.push((crate::util::nudge(p.0, ul), crate::util::nudge(p.1, ub)));
     }
   }
   for p in v.iter_mut() { if p.1 > PI / 2.0 { p.1 = PI / 2.0; } if p.1 < -PI / 2.0 { p.1 = -PI / 2.0; } }
